@@ -568,3 +568,16 @@ def check_onehot_range(ctx, chk):
     ok = all(n in tests for n in need)
     chk.ob("C09.onehot-range", "generator rejects bounds smaller than (#subnets, max subnet size)",
            ok, str(tests[-3:]), gen.module.path)
+    # accept side: nothing but the documented shape of the bounds is demanded (a tuple/list of two
+    # positive ints, at least as large as the network)
+    B = f"tuple(({P} is None ? (len(self.subnets), max(self.subnets)) : {P}))"
+    allowed = set(need) | {
+        f"((!None is {P} & isinstance({P}, (tuple, list))) | None is {P})",
+        f"isinstance({P}, (tuple, list))",
+        f"2==len({B})",
+        f"!EXISTS[{B}](!(0<each({B}) & isinstance(each({B}), int)))",
+    }
+    extra = [t for t in tests if t not in allowed]
+    chk.ob("C09.onehot-range", "the generator's bounds guards demand only: tuple/list, length 2, "
+           "positive ints, >= (#subnets, max subnet size)", not extra, str(extra)[:300],
+           gen.module.path)
